@@ -171,33 +171,7 @@ func checkC12(c *core.Ctx) error {
 		}
 	}
 	// ---- R5 const-stratum methods
-	constNames := map[string]bool{}
-	for _, p := range c.LibPkgs() {
-		if p.PkgPath != core.RootPkg {
-			continue
-		}
-		for _, n := range []string{"ConstScalar", "ConstVector", "ConstMatrix", "VectorConstIterator", "MatrixConstIterator"} {
-			if o := p.Types.Scope().Lookup(n); o != nil {
-				if it, ok := o.Type().Underlying().(*types.Interface); ok {
-					for i := 0; i < it.NumMethods(); i++ {
-						constNames[it.Method(i).Name()] = true
-					}
-				}
-			}
-		}
-	}
-	// iterator stepping legitimately advances the iterator itself
-	for _, n := range []string{"Next", "MarshalJSON"} {
-		delete(constNames, n)
-	}
-	for _, f := range e.All {
-		if f.Decl == nil || f.Decl.Recv == nil || f.Pkg.PkgPath != core.RootPkg || !constNames[f.Decl.Name.Name] {
-			continue
-		}
-		T := core.RecvTypeName(f.Decl)
-		if !(strings.Contains(T, "Vector") || strings.Contains(T, "Matrix") || isScalarTypeName(T)) || strings.Contains(T, "Iterator") && f.Decl.Name.Name != "GetConst" && f.Decl.Name.Name != "Ok" && f.Decl.Name.Name != "Index" {
-			continue
-		}
+	for _, f := range constStratumMethods(c, e) {
 		if len(f.Params) == 0 || f.Params[0] == nil {
 			c.OK("C12.R5", f.Name, "receiver not written (unnamed receiver)", f.Decl.Pos(), "")
 			continue
@@ -1205,4 +1179,40 @@ func structFieldMutable(t types.Type) string {
 		}
 	}
 	return ""
+}
+
+// constStratumMethods: the methods of scalar/vector/matrix types whose name belongs to the const interface strata
+// (ConstScalar, ConstVector, ConstMatrix and the const iterators), i.e. what read-only users call.
+func constStratumMethods(c *core.Ctx, e *eff.Engine) []*eff.Func {
+	constNames := map[string]bool{}
+	for _, p := range c.LibPkgs() {
+		if p.PkgPath != core.RootPkg {
+			continue
+		}
+		for _, n := range []string{"ConstScalar", "ConstVector", "ConstMatrix", "VectorConstIterator", "MatrixConstIterator"} {
+			if o := p.Types.Scope().Lookup(n); o != nil {
+				if it, ok := o.Type().Underlying().(*types.Interface); ok {
+					for i := 0; i < it.NumMethods(); i++ {
+						constNames[it.Method(i).Name()] = true
+					}
+				}
+			}
+		}
+	}
+	// iterator stepping legitimately advances the iterator itself
+	for _, n := range []string{"Next", "MarshalJSON"} {
+		delete(constNames, n)
+	}
+	var r []*eff.Func
+	for _, f := range e.All {
+		if f.Decl == nil || f.Decl.Recv == nil || f.Pkg.PkgPath != core.RootPkg || !constNames[f.Decl.Name.Name] {
+			continue
+		}
+		T := core.RecvTypeName(f.Decl)
+		if !(strings.Contains(T, "Vector") || strings.Contains(T, "Matrix") || isScalarTypeName(T)) || strings.Contains(T, "Iterator") && f.Decl.Name.Name != "GetConst" && f.Decl.Name.Name != "Ok" && f.Decl.Name.Name != "Index" {
+			continue
+		}
+		r = append(r, f)
+	}
+	return r
 }
